@@ -76,7 +76,11 @@ class Checker:
     def get_funcs(self) -> list[Func]:
         if self._filename == 'stdin' or astroid is None:
             return Func.from_ast(tree=self._tree)
-        text = read_source(Path(self._filename))
+        try:
+            text = read_source(Path(self._filename))
+        except OSError:
+            # the name is only a display name (flake8 --stdin-display-name)
+            return Func.from_ast(tree=self._tree)
         try:
             tree = astroid.parse(text)
         except astroid.AstroidSyntaxError:
